@@ -5,7 +5,6 @@ import copy
 import logging
 import os
 import sqlite3
-import traceback
 
 from vlib import core, store, ttlvref as T
 from vlib import harness as H
@@ -199,7 +198,7 @@ class Case(object):
         for data in sent:
             try:
                 items = T.response_items(data)
-            except Exception as e:
+            except Exception:
                 self.classes.append("response-unparseable-by-reference")
                 out.append(("UNPARSEABLE", None, data.decode("latin-1")))
                 continue
@@ -234,7 +233,7 @@ class Case(object):
         for e, kind, form in S.scan_entries(entries, self.reg):
             seen.setdefault(S.log_bucket(e, "log", kind), S.log_detail(e, kind, form))
         for e, direction, form in S.scan_frames(entries, self.frames):
-            seen.setdefault(S.log_bucket(e, "log-frame", direction),
+            seen.setdefault(S.log_bucket(e, "log-frame", "message-bytes"),
                             "%s frame bytes (%s form) in %s record of %s: %s" % (
                                 direction, form, e["level"], e["logger"], S._snip(e["text"], 400)))
         texts = {}
@@ -518,8 +517,8 @@ def run_server(spec):
             messages.extend(results)
             if results and not any(stopped_before_engine(r) for r in results):
                 kinds = in_flight_kinds(case, data, req)
-            fails = account(case, step.get("label"), results, errors, kinds, step.get("intent"),
-                            bool(step.get("mut")), batch=n_items > 1)
+            account(case, step.get("label"), results, errors, kinds, step.get("intent"),
+                    bool(step.get("mut")), batch=n_items > 1)
             if step.get("label"):
                 case.classes.append("step:" + step["label"].split("/")[0])
             if any(r[0] is None for r in results):
@@ -865,15 +864,14 @@ def run_client(spec):
             outcome = None
             try:
                 if api == "pie":
-                    res = pie_call(client, m, a)
+                    pie_call(client, m, a)
                 else:
-                    res = proxy_call(client.proxy, m, a)
+                    proxy_call(client.proxy, m, a)
                 outcome = "returned"
             except core.HarnessError:
                 raise
             except Exception as e:
                 outcome = type(e).__name__
-                res = None
             case.classes.append("call:" + label)
             ref = state.pop("ref", set())
             kinds = set(state["kinds"]) | new_kinds
